@@ -51,7 +51,9 @@ META = {
                 '(cookie: computed hash == received hash, no exception '
                 'swallowed on the way; EXTERNAL: peer credentials present)',
                 'D5 line framing independent of read splitting (shared with '
-                'C04-D5/D6)'],
+                'C04-D5/D6)',
+                'D6 text/bytes agreement on the accepting data path (a '
+                'necessary condition of "good credentials are accepted")'],
     'undecided': ['a conforming client with good credentials is accepted '
                   '(mechanisms\' cryptographic / file-system behaviour)',
                   'a wrong cookie is never accepted, beyond D1',
@@ -283,6 +285,8 @@ def run(ctx):
         raise AnalysisError('rejection-limit rule matched %d rows' % n_lim)
     _line_mode_limits(ctx)
     _mechanism_acceptance(ctx, mechs)
+    _text_bytes_agreement(ctx, mechs)
+    ctx.floor('C06.D6', 3)
     from .c04 import shared_line_framing
     shared_line_framing(ctx, 'C06.D5', 'C06.D5')
     ctx.floor('C06.D5', 3)
@@ -528,3 +532,107 @@ def _mechanism_acceptance(ctx, mechs):
     if n_ok < 3:
         raise AnalysisError('only %d accepting path(s) found in the '
                             'mechanism classes' % n_ok)
+
+
+def _text_bytes_agreement(ctx, mechs):
+    """D6: on the data path of a successful handshake (stepAuth -> mechanism
+    step -> challenge / hash comparison) no operation mixes str and bytes.
+    A mix raises TypeError; inside the mechanisms it is swallowed and turns
+    into "always REJECTED"."""
+    from ..bytestr import Typer, mismatches, path_consistent
+    prog = ctx.prog
+    selft = ('param', 'self')
+    cont_types = {}
+    n = 0
+    for name_t, cls_t in mechs[1]:
+        c = prog.cls(cls_t[1])
+        mname = name_t[1].decode() if isinstance(name_t[1], bytes) \
+            else str(name_t[1])
+        # field types from the stores in the class (argument of step: str)
+        fields = {}
+        for _ in range(2):
+            for meth in c.methods.values():
+                ps = meth.params()[1:]
+                typer = Typer(params={p_: 'str' for p_ in ps[:1]},
+                              fields=fields)
+                try:
+                    paths = Interp(prog, exc_edges=False,
+                                   self_cls=c).run(meth)
+                except AnalysisError:
+                    continue
+                for p in paths:
+                    for ev in iter_events(p.trace):
+                        if ev[0] == 'setattr' and ev[1] == selft:
+                            tt = typer.t(ev[3])
+                            if tt in ('str', 'bytes', 'int'):
+                                fields.setdefault(ev[2], tt)
+        for k_, v_ in c.attrs.items():
+            tv = Interp(prog)
+            tv._stack.append(next(iter(c.methods.values())))
+            term = tv.class_attr_term(c, k_)
+            if term is not None:
+                tt = Typer().t(term)
+                if tt in ('str', 'bytes'):
+                    fields.setdefault(k_, tt)
+        for meth in c.methods.values():
+            if meth.name not in ('step',) and not meth.name.startswith(
+                    '_step'):
+                continue
+            ps = meth.params()[1:]
+            typer = Typer(params={p_: 'str' for p_ in ps[:1]}, fields=fields)
+            for p in Interp(prog, exc_edges=False, self_cls=c).run(meth):
+                if not path_consistent(typer, p.cond):
+                    continue
+                terms = [ev[1] for ev in iter_events(p.trace)
+                         if ev[0] == 'call'] + [cnd for cnd, _ in p.cond]
+                terms += [ev[3] for ev in iter_events(p.trace)
+                          if ev[0] == 'setattr']
+                if p.value is not None:
+                    terms.append(p.value)
+                bad = list(mismatches(typer, terms))
+                n += 1
+                ctx.ob('C06.D6', meth.qualname, 'no-text-bytes-mix',
+                       not bad, 'the %s mechanism %s on the path of a '
+                       'response that arrives as str (stepAuth hex-decodes '
+                       'and .decode()s it): %s - a TypeError here is '
+                       'swallowed and the peer is rejected although its '
+                       'credentials are right' % (
+                           mname, bad[0][0] if bad else '',
+                           term_str(bad[0][1])[:100] if bad else ''))
+                if p.outcome == 'return' and kind(p.value) == 'tuple' and \
+                        len(p.value[1]) == 2 and \
+                        p.value[1][0] == C('CONTINUE'):
+                    cont_types.setdefault(mname, set()).add(
+                        typer.t(p.value[1][1]))
+    # stepAuth under every challenge type a mechanism can produce
+    sa = prog.func(K + '.stepAuth')
+    types = sorted({t for ts in cont_types.values() for t in ts
+                    if t in ('str', 'bytes')})
+    step_tgt = None
+    for p in Interp(prog, exc_edges=False).run(sa):
+        for cl in p.calls():
+            if (cl[1] or '').endswith('.step'):
+                step_tgt = cl[1]
+            elif kind(cl[2]) == 'attr' and cl[2][2] == 'step':
+                step_tgt = ('method', 'step')
+    if step_tgt is None or not types:
+        raise AnalysisError('stepAuth: cannot find the mechanism step call / '
+                            'challenge types')
+    for ct in types:
+        typer = Typer(params={sa.params()[1]: 'bytes'},
+                      fields={'server_guid': 'bytes', 'reject_msg': 'bytes'},
+                      returns={step_tgt: ('str', ct)})
+        bad_all = []
+        for p in Interp(prog, exc_edges=False).run(sa):
+            if not path_consistent(typer, p.cond):
+                continue
+            terms = [ev[1] for ev in iter_events(p.trace)
+                     if ev[0] == 'call']
+            bad_all.extend(mismatches(typer, terms))
+        who = sorted(m_ for m_, ts in cont_types.items() if ct in ts)
+        ctx.ob('C06.D6', sa.qualname, 'challenge-type:%s' % ct, not bad_all,
+               'mechanism(s) %s hand stepAuth a challenge of type %s; '
+               'stepAuth %s (%s): the DATA line cannot be built and the '
+               'mechanism can never succeed' % (
+                   who, ct, bad_all[0][0] if bad_all else '',
+                   term_str(bad_all[0][1])[:80] if bad_all else ''))
